@@ -143,6 +143,10 @@ pub fn check(c: &Case, obs: &mut Obs) -> Result<(), Fail> {
             return Ok(());
         }
     };
+    let mut built = built;
+    if let Some(what) = built.edit_after_build(c.build.hash() ^ 0x13) {
+        obs.label(&format!("modules_edited_after_build:{}", what));
+    }
     let n = built.size();
     let vals = built.values();
     let margin = c.cfg.margin_eff();
